@@ -39,6 +39,11 @@ def fact_phrases(rng, k):
     return out
 
 
+def c03_read(V, texts):
+    from props import c03
+    return c03.read_units(V, texts)
+
+
 def run(rng, tier, model_ok):
     V = unitlib.vocab()
     nfacts = 40 if tier == "quick" else 400
@@ -150,6 +155,25 @@ def run(rng, tier, model_ok):
         i4 = add("%s to %s" % (A, spell(c, d)))
         absolute.append((i4, si_of(x, a, b), dims))
         stats["same_names_other_powers"] = stats.get("same_names_other_powers", 0) + 1
+    # products whose units cancel completely although the factors are spelled in different units (the scales must still multiply)
+    inv = [("Bq", "hr"), ("Hz", "min"), ("kHz", "dy"), ("km/hr", "s/m"), ("N", "s^2/kg*km"), ("mi/hr", "hr/km"), ("W", "s/kJ"), ("l", "1/m^3"), ("Pa", "m^2/kN"),
+           ("kg/l", "gal/lb"), ("J/s", "1/mW"), ("ft", "1/in")]
+    iw = sorted({w for p in inv for w in p})
+    iread = c03_read(V, iw)
+    for a_u, b_u in inv:
+        na, nb = iread.get(a_u), iread.get(b_u)
+        if not na or not nb or V.dims(na) != {k: -v for k, v in V.dims(nb).items()}:
+            continue
+        for _ in range(3 if tier == "quick" else 30):
+            x, y, z = (Fraction(rng.randint(1, 99), rng.choice([1, 2, 10])) for _ in range(3))
+            A, B, C = "%s %s" % (gens_dec(x), a_u), "%s %s" % (gens_dec(y), b_u), "%s m" % gens_dec(z)
+            sa, sb = x * V.scale(na), y * V.scale(nb)
+            absolute.append((add("%s * %s" % (A, B)), sa * sb, {}))
+            absolute.append((add("%s * %s" % (B, A)), sa * sb, {}))
+            absolute.append((add("(%s * %s) * %s" % (A, B, C)), sa * sb * z, {"Meter": 1}))
+            absolute.append((add("%s * (%s * %s)" % (A, B, C)), sa * sb * z, {"Meter": 1}))
+            absolute.append((add("%s * (%s + %s)" % (A, B, B)), sa * 2 * sb, {}))
+        stats["cancelling_products"] = stats.get("cancelling_products", 0) + 1
     corpus = vlib.load_corpus("C13")
     off = len(corpus)
     items2 = [(q, None) for q in corpus] + items
